@@ -203,6 +203,16 @@ def derive(old, how, delta, shift):  # noqa: C901  pylint: disable=too-many-bran
             return {"type": "RectangularRegion", "x1": x1 + shift, "y1": y1, "x2": x2 + shift + delta, "y2": y2}
         if how == "grow_one_side":
             return {"type": "RectangularRegion", "x1": x1, "y1": y1 - delta, "x2": x2 + 3, "y2": y2}
+        if how.startswith("miss"):
+            # a disc that covers three corners of the old rectangle and leaves the fourth one out
+            k = int(how[4])
+            kx, ky = (x1, x2)[k & 1], (y1, y2)[(k >> 1) & 1]
+            ox, oy = cx - 0.3 * (kx - cx), cy - 0.3 * (ky - cy)
+            dk = math.hypot(kx - ox, ky - oy)
+            others = max(math.hypot(px - ox, py - oy) for px in (x1, x2) for py in (y1, y2) if (px, py) != (kx, ky)) if (x1 != x2 and y1 != y2) else dk
+            if others < dk:
+                return {"type": "CircularRegion", "cx": ox, "cy": oy, "r": (others + dk) / 2}
+            how = "circum"
         if how == "circum":
             return {"type": "CircularRegion", "cx": cx, "cy": cy, "r": math.hypot(x2 - cx, y2 - cy) + delta}
         if how == "circum_minus":
@@ -211,6 +221,8 @@ def derive(old, how, delta, shift):  # noqa: C901  pylint: disable=too-many-bran
             return {"type": "CircularRegion", "cx": cx, "cy": cy, "r": min(x2 - x1, y2 - y1) / 2 + delta}
         return {"type": "CircularRegion", "cx": cx + shift, "cy": cy, "r": math.hypot(x2 - cx, y2 - cy) + abs(shift) + delta}
     cx, cy, r = old["cx"], old["cy"], old["r"]
+    if how.startswith("miss"):
+        how = "diag_cut"
     if how in ("diag_in", "diag_cut"):
         # a larger disc whose centre lies diagonally from the old one: internally tangent (plus delta), or cutting off a cap of
         # the old disc although its four axis-extreme points are still inside
@@ -240,7 +252,7 @@ def derive(old, how, delta, shift):  # noqa: C901  pylint: disable=too-many-bran
 
 
 HOWS = ["grow", "grow", "shrink", "shift", "grow_one_side", "circum", "circum", "circum_minus", "inscr", "other",
-        "cut0", "cut1", "cut2", "cut3", "diag_in", "diag_cut", "diag_cut"]
+        "cut0", "cut1", "cut2", "cut3", "diag_in", "diag_cut", "diag_cut", "miss0", "miss1", "miss2", "miss3"]
 
 
 def machine(tier, col):  # pylint: disable=unused-argument
